@@ -394,6 +394,21 @@ class H05(_Harness):
         res.append(("exit status 0 or 1 and no traceback for any input", ok1, det))
         res.append(("whatever is printed on stdout is a JSON document", ok2, det))
         res.append(("a proper prefix of a well-formed PEL is never decoded", ok3, det))
+        # the same damaged files offered through a directory mode: reported per file on stderr, never a traceback
+        sub = os.path.join(d, "dir")
+        os.mkdir(sub)
+        order = list(range(len(cases)))
+        rng.shuffle(order)
+        for j, k in enumerate(order):
+            with open(os.path.join(sub, "%02d_%s" % (j, cases[k][0])), 'wb') as fh:
+                fh.write(cases[k][1])
+        ok4, det4 = True, {}
+        for mode in (['-a'], ['-l'], ['-n'], ['-a', '-x'], ['--plid', '0x%08X' % int.from_bytes(data[40:44], 'big')]):
+            r = run_cli(['-p', sub, '-E'] + mode, optimize=optimize)
+            if r['code'] != 0 or r['traceback'] or (mode[-1] != '-x' and jloads(r['stdout']) is None):
+                ok4 = False
+                det4 = dict(mode=mode, r=r, names=sorted(os.listdir(sub)))
+        res.append(("directory modes over the same damaged files: exit 0, no traceback, stdout still one JSON document", ok4, det4))
         return res
 
 
